@@ -13,6 +13,7 @@ pub mod c11;
 pub mod c12;
 pub mod c13;
 pub mod c14;
+pub mod c15;
 pub mod c16;
 pub mod c17;
 pub mod c18;
@@ -32,6 +33,7 @@ pub const TABLE: &[(&str, fn(&mut Ctx))] = &[
 	("C12", c12::run),
 	("C13", c13::run),
 	("C14", c14::run),
+	("C15", c15::run),
 	("C16", c16::run),
 	("C17", c17::run),
 	("C18", c18::run),
